@@ -2,6 +2,7 @@
 import threading
 
 import pyglove as pg
+from pgverif import models as M
 from pgverif.gen import desc as D
 from pgverif.gen import history as H
 from pgverif.gen import ops as O
@@ -65,6 +66,212 @@ def js(v):
     return pg.to_json_str(v)
   except Exception as e:  # pylint: disable=broad-except
     return f'<unserializable {type(e).__name__}>'
+
+
+# --- node kinds with public state outside their symbolic fields ----------------
+#
+# Functors (several arguments, some bound at construction, some left at their
+# default, required ones left unbound), hyper values and DNA live in the trees
+# as ordinary nodes: they can be the protected node, lie below it or above it.
+
+T = pg.typing
+
+
+@pg.functor([('a', T.Any()), ('b', T.Any()), ('c', T.Any())])
+def fn3(a, b=1, c=2):
+  return (a, b, c)
+
+
+@pg.functor([('x', T.Any()), ('n', T.Int(min_value=0)), ('s', T.Str())])
+def fn_typed(x, n=0, s='s'):
+  return [x, n, s]
+
+
+class SubFn(pg.Functor):
+  """A subclassed functor (arguments declared as fields of the class)."""
+  x: T.Any()
+  y: T.Any() = None
+  k: T.Int() = 1
+
+  def _call(self):
+    return (self.x, self.y, self.k)
+
+
+FUNCTORS = {'fn3': fn3, 'fn_typed': fn_typed, 'SubFn': SubFn}
+P_FUNCTOR_FOR_OBJECT = 0.3    # an untyped object of the drawn tree becomes a functor
+P_FUNCTOR_FOR_LEAF = 0.05     # a primitive leaf becomes a functor / hyper value / DNA
+P_FUNCTOR_STEP = 0.15         # directed operation on a functor at or below P
+
+
+def functor_desc(rng, subs=()):
+  """['F', name, [[arg, desc]...]]: only the listed arguments are bound."""
+  name = rng.choice(['fn3', 'fn3', 'fn_typed', 'SubFn'])
+  subs, fields = list(subs), []
+  for k, f in FUNCTORS[name].__schema__.fields.items():
+    if not isinstance(k, pg.typing.ConstStrKey) or rng.random() >= 0.6:
+      continue
+    if not isinstance(f.value, pg.typing.Any):
+      fields.append([str(k), ['v', V.value_for(f.value, rng, valid=True)]])
+    elif subs:
+      fields.append([str(k), subs.pop(0)])
+    else:
+      fields.append([str(k), ['v', V.small_prim(rng)]])
+  return ['F', name, fields]
+
+
+def special_leaf_desc(rng):
+  r = rng.random()
+  if r < 0.5:
+    return functor_desc(rng)
+  if r < 0.8:
+    return ['H', rng.choice(['oneof', 'oneof-nested', 'floatv'])]
+  return ['dna', rng.choice([[0], [1, [0, 2]]])]
+
+
+def with_special_nodes(rng, desc, top=True):
+  """Replaces some untyped objects / primitive leaves of a drawn description by
+  functors (the members become bound arguments), hyper values or DNA."""
+  k = desc[0]
+  if k in ('D', 'L'):
+    items = [[kk, with_special_nodes(rng, vv, False)] for kk, vv in desc[1]] \
+        if k == 'D' else [with_special_nodes(rng, vv, False) for vv in desc[1]]
+    return [k, items] + desc[2:]
+  if k == 'O':
+    if desc[1] not in ('Any2', 'Writable', 'Notifier'):
+      return desc                  # typed members: the value specs decide
+    fields = [[kk, with_special_nodes(rng, vv, False)] for kk, vv in desc[2]]
+    if rng.random() < P_FUNCTOR_FOR_OBJECT:
+      return functor_desc(rng, [vv for _, vv in fields])
+    return ['O', desc[1], fields]
+  if k == 'v' and not top and rng.random() < P_FUNCTOR_FOR_LEAF:
+    return special_leaf_desc(rng)
+  return desc
+
+
+def make_forest(rng, typed):
+  while True:
+    d = D.gen(rng, 3, classes=('Any2', 'Writable', 'Notifier'), typed=typed, symbolic=True)
+    if d[0] in ('D', 'L', 'O'):
+      break
+  d = with_special_nodes(rng, d)
+  return d, build_desc(d)
+
+
+def build_desc(desc, forest=None):
+  """D.build plus the kinds 'F' (functor), 'H' (hyper value) and 'dna'."""
+  k = desc[0]
+  sub = lambda d: build_desc(d, forest)
+  if k == 'F':
+    return FUNCTORS[desc[1]](**{kk: sub(vv) for kk, vv in desc[2]})
+  if k == 'H':
+    if desc[1] == 'oneof':
+      return pg.oneof([1, 2, 3])
+    if desc[1] == 'floatv':
+      return pg.floatv(0.0, 1.0)
+    return pg.oneof(['a', pg.Dict(x=1), pg.oneof([4, 5])])
+  if k == 'dna':
+    return pg.DNA(desc[1])
+  if k in ('D', 'd'):
+    items = {kk: sub(vv) for kk, vv in desc[1]}
+    return items if k == 'd' else pg.Dict(items, **(desc[2] if len(desc) > 2 else {}))
+  if k in ('L', 'l'):
+    items = [sub(vv) for vv in desc[1]]
+    return items if k == 'l' else pg.List(items, **(desc[2] if len(desc) > 2 else {}))
+  if k == 't':
+    return tuple(sub(vv) for vv in desc[1])
+  if k == 'O':
+    return getattr(M, desc[1])(**{kk: sub(vv) for kk, vv in desc[2]})
+  if k == 'ins':
+    return pg.Insertion(sub(desc[1]))
+  return D.build(desc, forest)
+
+
+def _obs(fn):
+  try:
+    return repr(fn())
+  except Exception as e:  # pylint: disable=broad-except
+    return f'<raises {type(e).__name__}>'
+
+
+def extra_state(v):
+  """[(path, part, observation)]: the public state that the nodes of `v` keep
+  OUTSIDE their symbolic fields (so it is not in the JSON form): the bound /
+  specified / default argument sets of a functor and what calling it returns,
+  metadata / userdata / derived facts of a DNA, what a hyper value and a DNA
+  spec have derived from their fields."""
+  out = []
+  if not isinstance(v, pg.Symbolic):
+    return out
+  for n, ks in TM.nodes_of(v):
+    if isinstance(n, pg.Functor):
+      for name in ('specified_args', 'non_default_args', 'default_args', 'bound_args',
+                   'unbound_args'):
+        out.append((ks, name, _obs(lambda n=n, name=name: sorted(getattr(n, name)))))
+      out.append((ks, 'is_fully_bound', _obs(lambda n=n: n.is_fully_bound)))
+      out.append((ks, 'call()', _obs(n)))
+    elif isinstance(n, pg.DNA):
+      out.append((ks, 'userdata', _obs(lambda n=n: sorted(n.userdata.items()))))
+      out.append((ks, 'derived', _obs(lambda n=n: (n.is_leaf, n.to_numbers(), n.spec))))
+    elif isinstance(n, pg.hyper.HyperPrimitive):
+      out.append((ks, 'dna_spec()', _obs(lambda n=n: js(n.dna_spec()))))
+      if isinstance(n, pg.hyper.Choices):
+        out.append((ks, 'candidate_templates', _obs(
+            lambda n=n: [js(t.value) for t in n.candidate_templates])))
+    elif isinstance(n, pg.DNASpec):
+      out.append((ks, 'derived', _obs(lambda n=n: (n.space_size, len(n.decision_points),
+                                                    sorted(n.userdata.items())))))
+  return out
+
+
+def flag_state(v):
+  if not isinstance(v, pg.Symbolic):
+    return []
+  return [(ks, n.is_sealed, n.accessor_writable) for n, ks in TM.nodes_of(v)
+          if not isinstance(n, pg.Ref)]
+
+
+class Snap:
+  """What "the tree is exactly as it was" is judged on: the JSON form, the
+  public state outside the symbolic fields and (with flags=True, for
+  comparisons of one tree with itself) the protection flags of every node."""
+
+  def __init__(self, v, flags=False):
+    self.json = js(v)
+    self.extra = extra_state(v)
+    self.flags = flag_state(v) if flags else None
+
+  def __eq__(self, other):
+    return (self.json, self.extra, self.flags) == (other.json, other.extra, other.flags)
+
+  def __ne__(self, other):
+    return not self == other
+
+  def same_value(self, other):
+    """Equal apart from the protection flags."""
+    return (self.json, self.extra) == (other.json, other.extra)
+
+  def part(self, other):
+    """Which observation differs (harness fact, part of the mechanism): '' for
+    the JSON form, else '[functor-state]' / '[node-state]' / '[flags]'."""
+    if self.json != other.json:
+      return ''
+    if self.extra != other.extra:
+      fun = {'specified_args', 'non_default_args', 'default_args', 'bound_args',
+             'unbound_args', 'is_fully_bound', 'call()'}
+      diff = [a for a, b in zip(self.extra, other.extra) if a != b]
+      return '[functor-state]' if all(d[1] in fun for d in diff) and diff else '[node-state]'
+    return '[flags]'
+
+  def diff(self, other):
+    if self.json != other.json:
+      return f'before={self.json[:300]}\nafter ={other.json[:300]}'
+    if self.extra != other.extra:
+      d = [(a, b) for a, b in zip(self.extra, other.extra) if a != b][:4]
+      return 'same JSON, but ' + '; '.join(
+          f'{a[1]} of the node at {a[0]}: {a[2]:.120} -> {b[2]:.120}' for a, b in d)
+    d = [(a, b) for a, b in zip(self.flags or [], other.flags or []) if a != b][:4]
+    return 'same JSON, but (path, is_sealed, accessor_writable): ' + '; '.join(
+        f'{a} -> {b}' for a, b in d)
 
 
 def innermost(stack):
@@ -431,9 +638,9 @@ def execute(forest, step, typed=False):
 
   def build(d):
     if not typed:
-      return D.build(d, forest)
+      return build_desc(d, forest)
     with pg.as_sealed(None), pg.allow_writable_accessors(None):
-      return D.build(d, forest)
+      return build_desc(d, forest)
   try:
     with O.scopes(step.get('scopes', ())):
       if step['op'] == 'rebind' and a.get('api') == 'pg.patch':
@@ -473,6 +680,80 @@ def gen_completion_step(rng, twin, below):
     return None
   return {'op': 'rebind', 'at': [0, ks],
           'args': {'updates': [[[key], ['d', items]]], 'opts': {}, 'form': 'dict',
+                   'style': rng.choice(['raw', 'keypath', 'str']),
+                   'api': rng.choice(['rebind', 'sym_rebind', 'pg.patch'])},
+          'scopes': []}
+
+
+# Operations of functors (kind 'Functor' is never returned by gen.ops.ops_for:
+# only gen_functor_step draws them).
+
+def _gen_delattr(g, f):
+  keys = list(f.sym_keys())
+  return {'k': g.rng.choice(keys)} if keys else None
+
+
+def _run_delattr(f, a, B):
+  del B
+  delattr(f, a['k'])
+
+
+def _gen_call(g, f):
+  """A call with call-time values for some arguments: unbound ones are bound
+  for the call, bound ones overridden (override_args=True) or, without it,
+  the call is turned down with TypeError."""
+  names = [str(k) for k in f.__schema__.fields if isinstance(k, pg.typing.ConstStrKey)]
+  picked = [n for n in names if g.rng.random() < 0.5]
+  npos = g.rng.randint(0, len(picked)) if picked == names[:len(picked)] else 0
+  return {'pos': [g.value(f, n) for n in picked[:npos]],
+          'kw': [[n, g.value(f, n)] for n in picked[npos:]],
+          'override_args': g.rng.random() < 0.7}
+
+
+def _run_call(f, a, B):
+  try:
+    return ('returned', repr(f(*[B(v) for v in a['pos']], **{k: B(v) for k, v in a['kw']},
+                               override_args=a['override_args'])))
+  except TypeError:
+    return ('TypeError',)       # unbound argument / override turned down
+
+
+O.OPS.setdefault('Functor.__delattr__', O.Op(
+    'Functor.__delattr__', 'Functor', _gen_delattr, _run_delattr))
+O.OPS.setdefault('Functor.__call__', O.Op(
+    'Functor.__call__', 'Functor', _gen_call, _run_call, effect='new'))
+ACCESSOR_OPS.add('Functor.__delattr__')
+
+
+def gen_functor_step(rng, twin, below, typed):
+  """A directed operation on a functor at or below the protected node: `del
+  f.arg`, `f.arg = v`, rebind of one or several arguments (to a value or back
+  to unbound with MISSING_VALUE) and a call with call-time overrides."""
+  cands = [(ks, n) for r, ks, n in H.all_nodes([twin])
+           if (r, ks) in below and isinstance(n, pg.Functor)]
+  if not cands:
+    return None
+  ks, fn = rng.choice(cands)
+  g = O.GenEnv(rng, H.ValueSource([twin], (0, ks), p_alias=0.0, p_invalid=0.0, typed=typed,
+                                  allow_root_alias=False), [twin])
+  names = list(fn.sym_keys())
+  bound = [a for a in names if a in fn.specified_args] or names
+  kind = rng.choice(['del', 'del', 'setattr', 'rebind', 'rebind', 'call', 'call'])
+  at = [0, list(ks)]
+  if kind == 'del':
+    return {'op': 'Functor.__delattr__', 'at': at, 'args': {'k': rng.choice(bound)},
+            'scopes': []}
+  if kind == 'setattr':
+    k = rng.choice(names)
+    return {'op': 'Object.__setattr__', 'at': at, 'args': {'k': k, 'v': g.value(fn, k)},
+            'scopes': []}
+  if kind == 'call':
+    return {'op': 'Functor.__call__', 'at': at, 'args': _gen_call(g, fn), 'scopes': []}
+  ups = []
+  for k in rng.sample(names, rng.randint(1, len(names))):
+    ups.append([[k], ['missing'] if k in bound and rng.random() < 0.4 else g.value(fn, k)])
+  return {'op': 'rebind', 'at': at,
+          'args': {'updates': ups, 'opts': {}, 'form': 'dict',
                    'style': rng.choice(['raw', 'keypath', 'str']),
                    'api': rng.choice(['rebind', 'sym_rebind', 'pg.patch'])},
           'scopes': []}
@@ -519,21 +800,25 @@ def run_case_in_thread(ctx, i):
   # defaults, nested typed dicts / lists); operands are drawn valid for the field.
   typed = rng.random() < ctx.params.get('p_typed', 0.25)
   c['typed_trees'] += typed
-  descs, forest = H.make_forest(rng, n_roots=1, typed=typed, depth=3,
-                                classes=('Any2', 'Writable', 'Notifier'))
-  desc = descs[0]
-  nodes = H.all_nodes(forest)
+  desc, root0 = make_forest(rng, typed)
+  nodes = H.all_nodes([root0])
+  c['trees_with_functors'] += any(isinstance(n, pg.Functor) for _, _, n in nodes)
   _, ppath, _ = rng.choice(nodes)
   below = [(r, ks) for r, ks, _ in nodes if H.is_prefix(ppath, ks)]
   log = []
   n_ref = n_all = 0
   for _ in range(ctx.params['steps']):
-    twin = D.build(desc)
+    twin = build_desc(desc)
     tnodes = [(r, ks, n) for r, ks, n in H.all_nodes([twin]) if (r, ks) in below]
     above = bool(ppath) and rng.random() < ctx.params.get('p_above', 0.35)
     if above:
       # issued ABOVE the protected node, written locations at or below it
       step = gen_above_step(rng, twin, ppath, typed)
+    elif rng.random() < P_FUNCTOR_STEP:
+      step = gen_functor_step(rng, twin, below, typed)
+      if step is None:
+        continue
+      c['functor_steps'] += 1
     elif typed and rng.random() < 0.2:
       step = gen_completion_step(rng, twin, below)
       c['completion_steps'] += step is not None
@@ -554,20 +839,20 @@ def run_case_in_thread(ctx, i):
       step['args']['opts'] = {}
     op = O.OPS[step['op']]
     pure = step.get('pure', True)
-    before = js(twin)
+    before = Snap(twin)
     tp = D.resolve([twin], 0, ppath)
-    tp_before = js(tp)
+    tp_before = Snap(tp)
     with pg.allow_writable_accessors(True):
       tstatus, tres = execute([twin], step, typed)
     if tstatus != 'ok':
       c['skipped_invalid_on_twin'] += 1
       continue
-    twin_after = js(twin)
+    twin_after = Snap(twin)
     mutating = op.effect == 'mutate'
     if mutating and twin_after == before:
       c['skipped_noop_on_twin'] += 1
       continue
-    if mutating and above and js(tp) == tp_before:
+    if mutating and above and Snap(tp) == tp_before:
       # the call would not change the protected node: the property is silent
       c['skipped_above_not_touching_protected'] += 1
       continue
@@ -576,7 +861,7 @@ def run_case_in_thread(ctx, i):
       c['issued_above_mixed_batch'] += (mutating and not pure)
     for _ in range(3):
       cfg = gen_config(rng)
-      st = {'root': D.build(desc), 'sealed': False, 'verdict': None}
+      st = {'root': build_desc(desc), 'sealed': False, 'verdict': None}
       st['pnode'] = D.resolve([st['root']], 0, ppath)
       witness = {'tree': D.show(desc), 'protected': ppath, 'step': O.show_step(step),
                  'config': cfg}
@@ -687,13 +972,13 @@ def run_case_in_thread(ctx, i):
         eff_writable = wc if wc is not None else all(n.accessor_writable for n in conts)
         by = {'sealed': 'scope' if sc is not None else 'flag',
               'writable': 'scope' if wc is not None else 'flag'}
-        r_before = js(root)
-        p_before = js(pnode)
+        r_before = Snap(root, flags=True)
+        p_before = Snap(pnode, flags=True)
         ctx.label = step['op']
         status, res = execute([root], step, typed)
         ctx.label = None
-        r_after = js(root)
-        p_after = js(pnode)           # the protected node by identity
+        r_after = Snap(root, flags=True)
+        p_after = Snap(pnode, flags=True)   # the protected node by identity
         c['op:' + op_name(step)] += 1
         where = (f"{O.show_step(step)} under {cfg_name(cfg)} (protected node at "
                  f"{ppath}, tree {D.show(desc)[:300]})")
@@ -703,7 +988,8 @@ def run_case_in_thread(ctx, i):
                         f'{where}\n{tree_problems[0]}', witness)
         if not mutating:
           if r_after != r_before:
-            ctx.violation('nonmutating-changed-tree', step['op'], where, witness)
+            ctx.violation('nonmutating-changed-tree', step['op'] + r_before.part(r_after),
+                          f'{where}\n{r_before.diff(r_after)}', witness)
           st['verdict'] = 'new'
         elif eff_sealed:
           n_ref += 1
@@ -717,13 +1003,13 @@ def run_case_in_thread(ctx, i):
             ctx.violation('sealed-wrong-error', mech,
                           f'{where}\nraised {type(res).__name__}: {res!s:.200}', witness); ok = False
           if p_after != p_before:
-            ctx.violation('sealed-tree-changed', mech,
-                          f'{where}\nprotected node before={p_before[:300]}\n'
-                          f'protected node after ={p_after[:300]}', witness); ok = False
+            ctx.violation('sealed-tree-changed', mech + p_before.part(p_after),
+                          f'{where}\nprotected node: {p_before.diff(p_after)}',
+                          witness); ok = False
           elif r_after != r_before:
             if pure:
-              ctx.violation('sealed-tree-changed', mech,
-                            f'{where}\nbefore={r_before[:300]}\nafter ={r_after[:300]}', witness); ok = False
+              ctx.violation('sealed-tree-changed', mech + r_before.part(r_after),
+                            f'{where}\n{r_before.diff(r_after)}', witness); ok = False
             else:
               c['dont_care_mixed_batch_applied_outside_protected'] += 1
           c['refused_ok'] += ok
@@ -739,7 +1025,8 @@ def run_case_in_thread(ctx, i):
             ctx.violation('accessor-wrong-error', mech,
                           f'{where}\nraised {type(res).__name__}: {res!s:.200}', witness); ok = False
           if r_after != r_before:
-            ctx.violation('accessor-tree-changed', mech, where, witness); ok = False
+            ctx.violation('accessor-tree-changed', mech + r_before.part(r_after),
+                          f'{where}\n{r_before.diff(r_after)}', witness); ok = False
           c['refused_ok'] += ok
           st['verdict'] = 'refused-accessor'
         elif step['op'] in ACCESSOR_OPS or step['op'] in REBIND_OPS or eff_writable:
@@ -753,15 +1040,17 @@ def run_case_in_thread(ctx, i):
           if status != 'ok':
             ctx.violation('unprotected-refused', mech,
                           f'{where}\nraised {type(res).__name__}: {res!s:.200}', witness); ok = False
-          elif r_after != twin_after:
-            ctx.violation('unprotected-differs', mech,
-                          f'{where}\nexpected={twin_after[:300]}\ngot     ={r_after[:300]}', witness); ok = False
+          elif not r_after.same_value(twin_after):
+            ctx.violation('unprotected-differs', mech + twin_after.part(r_after),
+                          f'{where}\nunprotected twin / this tree: '
+                          f'{twin_after.diff(r_after)}', witness); ok = False
           c['allowed_ok'] += ok
           st['verdict'] = 'allowed'
         else:
           c['dont_care_non_accessor_mutator_while_accessors_disabled'] += 1
           if status == 'raise' and r_after != r_before:
-            ctx.violation('refused-but-changed', step['op'], where, witness)
+            ctx.violation('refused-but-changed', step['op'] + r_before.part(r_after),
+                          f'{where}\n{r_before.diff(r_after)}', witness)
           st['verdict'] = 'dont-care'
 
       ctx.seen('configs', cfg_name(cfg))
